@@ -54,7 +54,7 @@ package values
 //@ ensures length: len(result) == max(0, r.e - r.b + 1)
 //@ ensures elems: forall(k, 0, len(result), result[k] == box(r.b + k))
 //@ loop 1 invariant idx: r.b <= i && i <= max(r.e + 1, r.b)
-//@ loop 1 invariant length: len(a) == i - r.b && cap(a) >= max(0, r.e - r.b + 1)
+//@ loop 1 invariant length: len(a) == i - r.b && cap(a) >= max(0, r.e - r.b + 1) && fresh(a)
 //@ loop 1 invariant elems: forall(k, 0, len(a), a[k] == box(r.b + k))
 //@ loop 1 decreases r.e + 1 - i
 
